@@ -43,6 +43,20 @@ def confirm(src):
         res["demo_clean_tail"] = out[-400:]
         os.remove(os.path.join(wt, "zz_mutant_demo_test.go"))
         rc, out = sh("git apply %s" % patch, cwd=wt)
+        if rc != 0:
+            # /repo's HEAD moved (a fix: commit) since the change was written: try a 3-way apply and, when that
+            # merges cleanly, keep the rebased patch (the original is kept as patch.orig.diff)
+            rc3, out3 = sh("git apply -3 %s" % patch, cwd=wt)
+            rcu, outu = sh("git diff --name-only --diff-filter=U", cwd=wt)
+            if rc3 == 0 and not outu.strip():
+                sh("git reset -q", cwd=wt)
+                rcd, newdiff = sh("git diff", cwd=wt)
+                shutil.copy(patch, os.path.join(src, "patch.orig.diff"))
+                open(patch, "w").write(newdiff)
+                res["rebased"] = True
+                rc = 0
+            else:
+                sh("git checkout -- . && git reset -q", cwd=wt)
         res["applies"] = rc == 0
         if rc != 0:
             res["apply_err"] = out[-400:]
